@@ -2,6 +2,7 @@ import SJ.Proofs.Pointer
 import SJ.Proofs.ValueIndex
 import SJ.Proofs.PartialEq
 import SJ.Proofs.JsonMacro
+import SJ.Proofs.NumberApEq
 /-!
 # C18 — Value lookups follow RFC 6901 and agree with each other
 
@@ -348,5 +349,94 @@ example : jsonMacro false (.arr [.null, .comma, .comma, .lit (.num (.pos 1))]) =
 example : jsonMacro false (.obj [.lit (.num (.pos 1)), .colon, .null]) = none := rfl   -- a number is no key
 
 end jsonMacro
+
+/-! ## `PartialEq` with primitives under `arbitrary_precision` -/
+
+section partialEqAp
+open SJ.Model.PartialEq SJ.Spec.PrimEq SJ.Proofs.NumberApEq
+
+/-- **C18 (PartialEq, `arbitrary_precision`).** With string-backed numbers (`Model.PartialEqAp`: the same
+    `eq_*` functions and `as _` casts, accessors = `str::parse` on the literal, `Model.NumberAp`), for every
+    `Value` whose numbers are RFC 8259 number texts, every integer type of the extracted table and every comparand
+    in its range: `value == x` is true exactly when the value is a Number whose literal is an *integer literal*
+    (no fraction, no exponent) worth `x` — and, for the unsigned types, written without a minus sign
+    (`Spec.PrimEqAp.holdsInt`). Bool and strings as in the default build.
+
+    Where this differs from the default build's reading "holds that value" (`c18_partial_eq_ap_differs`): only the
+    literal `-0`, which equals the signed zeros (`"-0".parse::<i64>() = Ok(0)`) and no unsigned zero
+    (`"-0".parse::<u64>()` fails) — in the default build `-0` is a float and equals no integer at all.
+    Literals with a fraction or an exponent (`1.0`, `1e2`) equal no integer in either build. -/
+theorem c18_partial_eq_ap (v : JV) (hv : Spec.PrimEqAp.wfValue v = true) :
+    (∀ ty lo hi, intRange ty = some (lo, hi) → ∀ x : Int, lo ≤ x → x ≤ hi →
+      Model.PartialEqAp.eqPrim ty (.int x) v = Spec.PrimEqAp.holdsInt (Spec.PrimEqAp.signedTy ty) x v) ∧
+    (∀ b, Model.PartialEqAp.eqPrim .bool (.bool b) v = holdsBool b v) ∧
+    (∀ s, eqStr s v = holdsStr s v) := by
+  refine ⟨fun ty lo hi hr x hlo hhi => ?_, fun b => ?_, fun s => ?_⟩
+  · cases ty <;> simp only [intRange, Option.some.injEq, Prod.mk.injEq, reduceCtorEq] at hr <;>
+      obtain ⟨rfl, rfl⟩ := hr <;> simp only [Model.PartialEqAp.eqPrim, Gen.eqFnOf, Spec.PrimEqAp.signedTy]
+    all_goals first
+      | exact SJ.Proofs.NumberApEq.eqFn_i64 x (by omega) (by omega) v hv
+      | exact SJ.Proofs.NumberApEq.eqFn_u64 x (by omega) (by omega) v hv
+  · cases v <;> simp [Model.PartialEqAp.eqPrim, Gen.eqFnOf, Model.PartialEqAp.eqFn, Gen.eqFnParam, Gen.eqFnAccessor, castTo,
+      Model.PartialEqAp.accessor, castedEq, holdsBool]
+  · cases v <;> rfl
+
+/-- **C18 (PartialEq with floats, `arbitrary_precision`).** `value == x` for `x : f64` (`f32`) is the IEEE-754
+    equality of `x` with the nearest finite binary64 (binary32) of the literal's exact value — ONE correctly
+    rounded conversion from the decimal text (`Spec.Ieee.roundNE64/32` of `Spec.Decimal.NumLit.exact`; std's
+    `str::parse::<f64/f32>` assumed correctly rounded) — and false when that rounding is not finite or the
+    value is not a number. So `json!(1.0) == 1.0`, `"1e2" == 100.0`, `"100" == 100.0` hold, and `"1e400"`
+    equals nothing (not even `f64::INFINITY`). -/
+theorem c18_partial_eq_float_ap (v : JV) (hv : Spec.PrimEqAp.wfValue v = true) :
+    (∀ b, Model.PartialEqAp.eqPrim .f64 (.f64 b) v = Spec.PrimEqAp.holdsF64 b v) ∧
+    (∀ b, Model.PartialEqAp.eqPrim .f32 (.f32 b) v = Spec.PrimEqAp.holdsF32 b v) :=
+  ⟨fun b => SJ.Proofs.NumberApEq.eqFn_f64 b v hv, fun b => SJ.Proofs.NumberApEq.eqFn_f32 b v hv⟩
+
+/-- where the two builds differ on integer comparands, precisely: under `arbitrary_precision` a literal other
+    than `-0` equals an in-range `x` exactly when it is an integer literal worth `x` (whatever the signedness of
+    the comparand's type); `-0` equals `0` of a signed type and nothing else -/
+theorem c18_partial_eq_ap_differs (signed : Bool) (x : Int) (l : Spec.Decimal.NumLit) :
+    (Spec.NumberAcc.isNegZero l = false → (signed = false → 0 ≤ x) →
+      Spec.PrimEqAp.holdsIntLit signed x l = (Spec.NumberAcc.isIntLit l && Spec.NumberAcc.intVal l == x)) ∧
+    (Spec.NumberAcc.isNegZero l = true → Spec.PrimEqAp.holdsIntLit signed x l = (signed && x == 0)) := by
+  unfold Spec.PrimEqAp.holdsIntLit Spec.NumberAcc.isNegZero Spec.NumberAcc.intVal
+  constructor
+  · intro hz hx
+    cases hil : Spec.NumberAcc.isIntLit l
+    · rfl
+    · cases hn : l.neg
+      · simp
+      · cases signed
+        · -- unsigned comparand, negative literal that is not `-0`: its value is < 0 ≤ x
+          have h0 : 0 ≤ x := hx rfl
+          rw [hil, hn] at hz
+          simp only [Bool.true_and, beq_eq_false_iff_ne, ne_eq] at hz
+          have : ¬ (-(Spec.Decimal.digitsVal l.intDigits : Int) = x) := by omega
+          simp [this]
+        · simp
+  · intro hz
+    simp only [Bool.and_eq_true, beq_iff_eq] at hz
+    obtain ⟨⟨hil, hn⟩, h0⟩ := hz
+    simp only [hil, hn, h0, Bool.true_and, Bool.not_true, Bool.or_false, if_true]
+    cases signed <;> simp [eq_comm]
+
+/-- non-vacuity and the differences, on concrete values (Bool tests evaluated by the kernel) -/
+example : (Model.PartialEqAp.eqPrim .i64 (.int 0) (.num (.lit [0x2d, 0x30])) &&          -- "-0" == 0i64
+    !Model.PartialEqAp.eqPrim .u64 (.int 0) (.num (.lit [0x2d, 0x30])) &&                 -- "-0" != 0u64
+    !Model.PartialEqAp.eqPrim .u8 (.int 100) (.num (.lit [0x31, 0x65, 0x32])) &&          -- "1e2" != 100u8
+    Model.PartialEqAp.eqPrim .f64 (.f64 0x4059000000000000) (.num (.lit [0x31, 0x65, 0x32])) &&   -- "1e2" == 100.0
+    Model.PartialEqAp.eqPrim .f64 (.f64 0x3ff0000000000000) (.num (.lit [0x31, 0x2e, 0x30])) &&   -- "1.0" == 1.0
+    !Model.PartialEqAp.eqPrim .u8 (.int 1) (.num (.lit [0x31, 0x2e, 0x30])) &&            -- "1.0" != 1u8
+    !Model.PartialEqAp.eqPrim .f64 (.f64 0x7ff0000000000000) (.num (.lit [0x31, 0x65, 0x34, 0x30, 0x30])) &&  -- "1e400" != inf
+    Model.PartialEqAp.eqPrim .f64 (.f64 0) (.num (.lit [0x2d, 0x30])) &&                  -- "-0" == 0.0
+    Model.PartialEqAp.eqPrim .usize (.int 18446744073709551615)
+      (.num (.lit [0x31,0x38,0x34,0x34,0x36,0x37,0x34,0x34,0x30,0x37,0x33,0x37,0x30,0x39,0x35,0x35,0x31,0x36,0x31,0x35]))) = true := by
+  decide +kernel
+/-- `0.1` against `0.1f32`: one rounding of the decimal text (equal), where the default build rounds `0.1f64` again (also equal);
+    `16777217` against `16777216f32`: equal in both (ties to even) -/
+example : (Model.PartialEqAp.eqPrim .f32 (.f32 0x3dcccccd) (.num (.lit [0x30, 0x2e, 0x31])) &&
+    Model.PartialEqAp.eqPrim .f32 (.f32 0x4b800000) (.num (.lit [0x31,0x36,0x37,0x37,0x37,0x32,0x31,0x37]))) = true := by decide +kernel
+
+end partialEqAp
 
 end SJ.Props.C18
